@@ -8,7 +8,8 @@
    operation theorems hold for every databox, span, option and history of operations. *)
 From Coq Require Import String Ascii ZArith List Bool.
 From Verif Require Import lib.Arith lib.ArithOptZ model.Series model.SeriesOps model.Databox model.Slate model.Csv gen.CsvGen
-  proofs.SeriesProofs proofs.SeriesOpsProofs proofs.DataboxProofs proofs.CsvProofs.
+  proofs.SeriesProofs proofs.SeriesOpsProofs proofs.DataboxProofs proofs.CsvProofs
+  gen.Csv4Gen model.Csv4 proofs.Databox4Proofs proofs.Csv4Proofs.
 Import ListNotations.
 Open Scope Z_scope.
 
@@ -94,16 +95,57 @@ Proof. exact marks_roundtrip. Qed.
 Print Assumptions C19_csv_frequency_marks.
 
 (* the exceptions are real (concrete sheets, evaluated): a name starting with "__" loses its block; a series
-   without observations comes back empty without its description; a sheet of empty series only cannot be read *)
+   whose observations are all missing comes back empty without its description *)
 Theorem C19_csv_exceptions_refuted :
   CsvExamples.roundtrip false [("__x"%string, ISer OZArith "" (CsvExamples.ser [[Some 1]]));
                                ("b"%string, ISer OZArith "" (CsvExamples.ser [[Some 2]]))] = Ok []
   /\ CsvExamples.roundtrip true [("a"%string, ISer OZArith "about a" (CsvExamples.ser [[None]; [None]]));
                                  ("b"%string, ISer OZArith "about b" (CsvExamples.ser [[Some 2]]))]
-     = Ok [("a"%string, ISer OZArith "" (empty_series OZArith 1)); ("b"%string, ISer OZArith "about b" (CsvExamples.ser [[Some 2]]))]
-  /\ CsvExamples.roundtrip false [("e"%string, ISer OZArith "" (empty_series OZArith 1))] = Err 5.
-Proof. exact (conj CsvExamples.dunder_name_lost (conj CsvExamples.all_missing_comes_back_empty CsvExamples.only_empty_series_raises)). Qed.
+     = Ok [("a"%string, ISer OZArith "" (empty_series OZArith 1)); ("b"%string, ISer OZArith "about b" (CsvExamples.ser [[Some 2]]))].
+Proof. exact (conj CsvExamples.dunder_name_lost CsvExamples.all_missing_comes_back_empty). Qed.
 Print Assumptions C19_csv_exceptions_refuted.
+
+(* ---- empty series (no observations, unknown frequency) in the sheet ---- *)
+
+(* the exporter's frequency -> periods table as the source builds it (_resolve_frequency_span; the keep test
+   [fspan_keep] is regenerated from the source): a frequency that is a key of the frequency-span option and has at
+   least one selected series -- the unknown frequency of empty series included -- is never dropped *)
+Theorem C19_csv_table_keeps_every_frequency_with_series : forall A (db : databox A) fs f x,
+  In (f, x) fs -> series_of_freq A db f <> [] -> In f (map fst (resolve_fspan_src A db fs)).
+Proof. exact fspan_table_complete. Qed.
+Print Assumptions C19_csv_table_keeps_every_frequency_with_series.
+
+(* ... and the sheet written with that table is the sheet of [export] (the subject of C19_csv_roundtrip), for every
+   databox (any mix of frequencies, empty series, scalars, lists), name selection and option *)
+Theorem C19_csv_export_table_same_sheet : forall A fmt_period fmt_val rnd (db : databox A) (o : wopts),
+  export_src A fmt_period fmt_val rnd db o = export A fmt_period fmt_val rnd db o.
+Proof. exact export_src_same. Qed.
+Print Assumptions C19_csv_export_table_same_sheet.
+
+(* a block without dated rows -- the __unknown__ block of empty series, in a sheet with or without data rows -- is
+   read back as empty series carrying the names, variant counts (columns) and descriptions of its header.
+   _partial: the composition with [export] for databoxes that mix dated and empty series is evaluated on instances
+   (C19_csv_empty_series_examples) and compared with the implementation on every run, not proved in general *)
+Theorem C19_csv_undated_block_partial : forall A parse_period parse_val (name_row desc_row : row) (data_rows : grid)
+  (db : databox A) f dc ec,
+  Forall (fun r => cell_at r dc = ""%string) data_rows ->
+  (data_rows <> [] -> parse_period f ""%string <> None) ->
+  import_block A parse_period parse_val name_row desc_row data_rows (Ok db) (f, dc, ec)
+  = Ok (fold_left (fun d g => let '(cs, n, ds) := g in dset A d n (ISer A ds (empty_series A (length cs))))
+                  (header_groups name_row desc_row dc ec) db).
+Proof. exact import_block_no_periods. Qed.
+Print Assumptions C19_csv_undated_block_partial.
+
+Theorem C19_csv_empty_series_examples :
+  CsvExamples.roundtrip true [("e"%string, ISer OZArith "about e" (empty_series OZArith 1)); ("e2"%string, ISer OZArith "" (empty_series OZArith 3))]
+  = Ok [("e"%string, ISer OZArith "about e" (empty_series OZArith 1)); ("e2"%string, ISer OZArith "" (empty_series OZArith 3))]
+  /\ Csv4Examples.roundtrip' true [("e"%string, ISer OZArith "about e" (empty_series OZArith 2));
+                                    ("a"%string, ISer OZArith "about a" (CsvExamples.ser [[Some 1]; [Some 2]]))]
+     = Ok [("a"%string, ISer OZArith "about a" (CsvExamples.ser [[Some 1]; [Some 2]]));
+           ("e"%string, ISer OZArith "about e" (empty_series OZArith 2))]
+  /\ In (-1, None) default_fspan.
+Proof. exact (conj CsvExamples.only_empty_series_roundtrip (conj Csv4Examples.mixed_empty_series_roundtrip Csv4Examples.default_table_has_unknown)). Qed.
+Print Assumptions C19_csv_empty_series_examples.
 
 (* ------------------------------------------------------------------ dataslate *)
 
@@ -255,6 +297,42 @@ Theorem C19_merge_spec : forall A (db other db' : databox A) (st : strategy), ND
   ND A db' /\ forall k, merged A st db other k (dget A db' k).
 Proof. exact merge_spec. Qed.
 Print Assumptions C19_merge_spec.
+
+(* merge of ANY list of databoxes in one call: the result is a chain of single-databox merges (C19_merge_spec for
+   every link), each against the keys present at that moment *)
+Theorem C19_merge_many_spec : forall A (db : databox A) others db' st, ND A db -> Forall (ND A) others ->
+  d_merge A db others st = Ok db' -> ND A db' /\ merge_chain A st db others db'.
+Proof. exact merge_many_spec. Qed.
+Print Assumptions C19_merge_many_spec.
+
+(* ... hence every key holds the strategy folded over ALL its occurrences in the merged databoxes, in their order,
+   starting from the target's own item: also a key that is new to the target and occurs in two merged databoxes *)
+Theorem C19_merge_many_key : forall A (db : databox A) others db' st, ND A db -> Forall (ND A) others ->
+  d_merge A db others st = Ok db' ->
+  forall k, merge_key A st (dget A db k) (occurrences A others k) = Ok (dget A db' k).
+Proof. exact merge_many_key. Qed.
+Print Assumptions C19_merge_many_key.
+
+Theorem C19_merge_two_new_key : forall A (db b c db' : databox A) st k v1 v2, ND A db -> ND A b -> ND A c ->
+  d_merge A db [b; c] st = Ok db' -> dget A db k = None -> dget A b k = Some v1 -> dget A c k = Some v2 ->
+  exists it, merge_val A st v1 v2 = Ok it /\ dget A db' k = Some it.
+Proof. exact merge_two_new_key. Qed.
+Print Assumptions C19_merge_two_new_key.
+
+Theorem C19_merge_many_examples :
+  d_merge OZArith [] [[("k"%string, Merge4Examples.sc 2)]; [("k"%string, Merge4Examples.sc 3)]] MDiscard = Ok [("k"%string, Merge4Examples.sc 2)]
+  /\ d_merge OZArith [] [[("k"%string, Merge4Examples.sc 2)]; [("k"%string, Merge4Examples.sc 3)]] (MReport true) = Err 2%nat.
+Proof. exact (conj Merge4Examples.discard_keeps_first Merge4Examples.error_on_duplicate_among_others). Qed.
+Print Assumptions C19_merge_many_examples.
+
+(* a databox that is not the destination of any operation of a history keeps all its items, whatever is done to
+   the other databoxes: the result of copy (a register of its own) and its source never influence each other.
+   (The model has value semantics; that the implementation's databoxes do not share mutable items is checked by
+   the correspondence, which compares EVERY databox of the session after each history, and by the falsifier.) *)
+Theorem C19_ops_other_databoxes_untouched : forall A (ops : list dop) (rs : dregs A) r,
+  (forall o, In o ops -> op_dst o <> r) -> getd A (fst (drun A rs ops)) r = getd A rs r.
+Proof. exact drun_other_register. Qed.
+Print Assumptions C19_ops_other_databoxes_untouched.
 
 (* non-vacuity: a lawful carrier, a concrete sheet that round-trips, a concrete history *)
 Example C19_nonvacuous :
